@@ -266,6 +266,19 @@ func (ex *Exec) appendBytes(fr *Frame, a0, a1 Value) Value {
 			return Ref1(BoxT{B: &nb})
 		}
 	}
+	// append(<empty buffer>, box...) = copy of the box
+	if tb, isBox := singleBox(t); isBox {
+		empty := true
+		for _, a := range s.Alts {
+			if st, ok := a.Tgt.(SliceT); !ok || !(st.Len.IsConst() && st.Len.SVal() == 0) {
+				empty = false
+			}
+		}
+		if empty {
+			_ = tb
+			return t
+		}
+	}
 	for _, a := range t.Alts {
 		if _, ok := a.Tgt.(LineT); ok && len(s.Alts) == 0 {
 			return t // append([]byte(nil), line...) = copy of the line object
